@@ -9,6 +9,11 @@ mod req;
 
 use std::io::{BufRead, Write};
 
+thread_local! {
+    static REQ_CLOCK: std::cell::RefCell<Option<(std::time::Instant, std::sync::Arc<std::sync::atomic::AtomicU64>)>> =
+        std::cell::RefCell::new(None);
+}
+
 fn main() {
     let args: Vec<String> = std::env::args().collect();
     if args.len() < 2 {
@@ -25,6 +30,24 @@ fn main() {
                 let gb: u64 = std::env::var("ACHARNESS_AS_GB").ok().and_then(|x| x.parse().ok()).unwrap_or(16);
                 let lim = libc::rlimit { rlim_cur: gb << 30, rlim_max: gb << 30 };
                 libc::setrlimit(libc::RLIMIT_AS, &lim);
+            }
+            // ... and a request that never returns (an endless loop that allocates nothing) must not hold the run for
+            // longer than a per-request limit: a watchdog thread aborts the process, the parent names the request.
+            let started = std::sync::Arc::new(std::sync::atomic::AtomicU64::new(0));
+            {
+                let watched = started.clone();
+                let limit: u64 =
+                    std::env::var("ACHARNESS_REQ_TIMEOUT_S").ok().and_then(|x| x.parse().ok()).unwrap_or(60);
+                let t0 = std::time::Instant::now();
+                std::thread::spawn(move || loop {
+                    std::thread::sleep(std::time::Duration::from_millis(500));
+                    let s = watched.load(std::sync::atomic::Ordering::Relaxed);
+                    if s != 0 && t0.elapsed().as_secs() > s + limit {
+                        std::process::abort();
+                    }
+                });
+                // `started` holds (seconds since t0 when the current request began) + 1, 0 = idle
+                REQ_CLOCK.with(|c| *c.borrow_mut() = Some((t0, started.clone())));
             }
             let f = std::fs::File::open(&args[2]).expect("open reqfile");
             let rdr = std::io::BufReader::new(f);
@@ -43,6 +66,11 @@ fn main() {
                         continue;
                     }
                 };
+                REQ_CLOCK.with(|c| {
+                    if let Some((t0, st)) = c.borrow().as_ref() {
+                        st.store(t0.elapsed().as_secs() + 1, std::sync::atomic::Ordering::Relaxed);
+                    }
+                });
                 for (cfg, resp) in exec::run(&r) {
                     writeln!(out, "{} {} {}", i, cfg, resp).unwrap();
                 }
